@@ -70,6 +70,19 @@ impl NodeHandle {
     ///
     /// Automatically calls [`NodeHandle::dispose_children`].
     pub fn dispose(self) {
+        // Unsubscribe the node first: it is going away and must not be re-run by one of its own
+        // cleanups (one that writes a signal the node depends on). Whatever such a run created or
+        // registered would never be cleaned up.
+        {
+            let mut nodes = self.1.nodes.borrow_mut();
+            if let Some(this) = nodes.get_mut(self.0) {
+                for dependency in std::mem::take(&mut this.dependencies) {
+                    if let Some(dependency) = nodes.get_mut(dependency) {
+                        dependency.dependents.retain(|&id| id != self.0);
+                    }
+                }
+            }
+        }
         // Dispose children first since this node could be referenced in a cleanup.
         self.dispose_children();
         let mut nodes = self.1.nodes.borrow_mut();
